@@ -41,6 +41,7 @@ structure C11St where
   refusedSeen : Bool := false
   sawSendBodyAfterRefusal : Bool := false
   gotResponse : Bool := false       -- a response head was handed out in RecvResponse and not yet advanced past
+  expects : Bool := false           -- the request carries Expect: 100-continue
   fail : Option String := none
 
 def oracleC11 (c : TCase) : Verdict :=
@@ -48,6 +49,12 @@ def oracleC11 (c : TCase) : Verdict :=
     if s.fail.isSome then s else
     if t.isPanic then { s with fail := some s!"panic: {t.raw.take 100}" } else
     match t.kw with
+    | "new" | "cnew" =>
+      if (newHeaders t.op).any (fun h => h.name.toLower == "expect" && h.value == "100-continue".toUTF8.toList) then { s with expects := true } else s
+    | "hdr" =>
+      (match t.op with
+       | [_, k, v] => if k.toLower == "expect" && unhex v == "100-continue".toUTF8.toList then { s with expects := true } else s
+       | _ => s)
     | "read100" =>
       let w := unhex (t.op.getD 1 "-")
       if s.decided.isSome then s else   -- looking again after a verdict is outside the protocol
@@ -82,6 +89,7 @@ def oracleC11 (c : TCase) : Verdict :=
             | some (.continue100 _) => if nxt == "sendBody" then s1 else { s1 with fail := some s!"100 received, but the flow went to {nxt}" }
             | _ => if nxt == "sendBody" then { s1 with gaveUp := true } else { s1 with fail := some s!"gave up waiting, but the flow went to {nxt}" })
          else if nxt == "sendBody" && s.refusedSeen then { s with fail := some "the body was requested after the server refused it" }
+         else if nxt == "sendBody" && s.expects then { s with gaveUp := true }   -- body sent with no 100 seen: a 100 from here on is late
          else s
        | _ => s)
     | "resp" =>
